@@ -32,15 +32,15 @@ CHECKS = {
          "DESIGN.md §3 C02"),
  "C03": ("model_checking",
          "explicit-state exhaustive search over create/claim/block/jump-to-expiry sequences on the real HTLC keeper with a contract-status reference model and a full balance-sheet oracle per message and per begin-block",
-         "Every sequence up to the depth bound of creates (plain single/multi-coin, duplicate ids, timestamped hash locks, incoming/outgoing cross-chain), claims (right / wrong secret, on open / completed / refunded contracts) and block steps around the expiration height (several contracts expiring at one height): state only moves open->completed|refunded, funds move exactly once and only as the property says, refunds happen exactly in the begin-block of the expiration height with one event each, escrow = open contracts. Two further parts add restart-from-genesis (export, validation, emptied stores, InitGenesis) as an operation; the reference forgets closed contracts, which the export drops by design. The restart is offered inside a block, between two blocks (InitGenesis under the next block's height) and with an initial height 51 above the export's (overdue contracts stay open; funds leave escrow at most once). Further parts: governance freezing transfers of the locked denomination (bank SendEnabled) over an expiry, and a scripted history of 120 contracts due at one height.",
+         "Every sequence up to the depth bound of creates (plain single/multi-coin, duplicate ids, timestamped hash locks, incoming/outgoing cross-chain), claims (right / wrong secret, on open / completed / refunded contracts) and block steps around the expiration height (several contracts expiring at one height): state only moves open->completed|refunded, funds move exactly once and only as the property says, refunds happen exactly in the begin-block of the expiration height with one event each, escrow = open contracts. Two further parts add restart-from-genesis (export, validation, emptied stores, InitGenesis) as an operation; the reference forgets closed contracts, which the export drops by design. The restart is offered inside a block, between two blocks (InitGenesis under the next block's height) and with an initial height 51 above the export's (overdue contracts stay open; funds leave escrow at most once). Further parts: governance freezing transfers of the locked denomination (bank SendEnabled) over an expiry, and a scripted history of 260 contracts due at one height (claims before, at and after the edge).",
          "DESIGN.md §3 C03"),
  "C04": ("model_checking",
          "explicit-state exhaustive search as C03 with two time-limited assets, block-time steps that straddle the limit period, and counters recomputed from the HTLC queries and an independent tumbling-window reference",
-         "In every reached state: escrow = open ordinary + open outgoing; per asset incoming/outgoing counters = sums over open transfers; current = minted - burned = bank supply; current + incoming <= limit; amount completed inside one reference window <= time-based limit (two assets with different periods, so cross-asset interference in the window reset is visible). A part imports the exported genesis of a reachable state broken in exactly one way per case (four cases) and requires the import to refuse it; two parts add restart-from-genesis as an operation (inside a block, between two blocks, and at a later initial height); the bank-freeze and 120-contract parts of C03 run here too.",
+         "In every reached state: escrow = open ordinary + open outgoing; per asset incoming/outgoing counters = sums over open transfers; current = minted - burned = bank supply; current + incoming <= limit; amount completed inside one reference window <= time-based limit (two assets with different periods, so cross-asset interference in the window reset is visible). A part imports the exported genesis of a reachable state broken in exactly one way per case (four cases) and requires the import to refuse it; two parts add restart-from-genesis as an operation (inside a block, between two blocks, and at a later initial height); the bank-freeze and 260-contract parts of C03 run here too (escrow judged against the contracts stored as open).",
          "DESIGN.md §3 C04"),
  "C15": ("model_checking",
          "explicit-state exhaustive search over issue/mint/edit/transfer/burn/transfer-class sequences with boundary uint64 amounts on the real MT keeper, exact big-integer reference ledger compared through every query after every message",
-         "Every sequence up to the depth bound by three actors with amounts {1, 2^63, 2^64-1, balance, balance+1, fill-to-max(+1)}: must-reject rules (authority, overflow, insufficient balance), every queried balance/supply/metadata/owner equals the exact model, sum of balances = supply from queries and from the raw store, generated ids never reused. A genesis-import part bends the exported genesis of a reachable state in six ways (incl. balances that wrap to the recorded supply in 64 bits): an accepted import must satisfy the conservation invariant in unbounded integers.",
+         "Every sequence up to the depth bound by three actors with amounts {1, 2^63, 2^64-1, balance, balance+1, fill-to-max(+1)}: must-reject rules (authority, overflow, insufficient balance), every queried balance/supply/metadata/owner equals the exact model, sum of balances = supply from queries and from the raw store, generated ids never reused. A genesis-import part bends the exported genesis of a reachable state in six ways (incl. balances that wrap to the recorded supply in 64 bits): an accepted import must satisfy the conservation invariant in unbounded integers. The balances listing is also read in pages of one entry.",
          "DESIGN.md §3 C15"),
  "C20": ("exploration",
          "exhaustive enumeration over all .proto files / descriptors of both generated families linked into one binary, and over a descriptor-driven bounded value space per message (round trips in both directions); every generated client stub method of both families called once on a recording connection",
@@ -48,11 +48,11 @@ CHECKS = {
          "DESIGN.md §3 C20"),
  "C09": ("model_checking",
          "explicit-state exhaustive search over issue/edit/mint/burn/transfer-owner sequences by owner and stranger on the real token keeper (13 explorations: identity collisions, cap at scales 0/1/18, 9 fee-parameter sets), exact big-integer supply/burn reference compared through every query",
-         "Every sequence up to the depth bound: symbol and min unit unique forever (incl. the native token), only the current owner edits/mints/hands over, non-mintable never mints, supply <= max*10^scale after every success, an accepted edit never leaves the cap below circulation, burn tally exact, fee = fee-pool part + burned part with an empty module account for tax and mint-ratio in {0,0.4,1}. One variant starts from a genesis that lists a token without an owner: every owner-only message on it must fail. One variant lets governance register an ERC20 contract for an IBC asset under a new, a taken and a case-variant symbol: issued tokens keep their identity.",
+         "Every sequence up to the depth bound: symbol and min unit unique forever (incl. the native token), only the current owner edits/mints/hands over, non-mintable never mints, supply <= max*10^scale after every success, an accepted edit never leaves the cap below circulation, burn tally exact, fee = fee-pool part + burned part with an empty module account for tax and mint-ratio in {0,0.4,1}. One variant starts from a genesis that lists a token without an owner: every owner-only message on it must fail. One variant binds an issued token to an ERC20 contract and converts it both ways next to burns (conversions move the native amount, never the burn tally). One variant lets governance register an ERC20 contract for an IBC asset under a new, a taken and a case-variant symbol: issued tokens keep their identity.",
          "DESIGN.md §3 C09"),
  "C07": ("model_checking",
          "explicit-state exhaustive search over call/respond/withdraw/bind-update-disable-enable-refund/block sequences on the real service keeper with a relational balance-sheet oracle per message and per end-block and conservation invariants in every state",
-         "Every sequence up to the depth bound over 3 providers (time promotion, volume promotion, plain price), 2 owners, a rich and a poor consumer, one-shot and repeated contexts: deposit escrow = sum of recorded deposits; request escrow = active request fees + unwithdrawn earned fees (provider and owner tallies agree); per end-block the consumer is charged exactly the fees recorded on the new requests, expired requests are refunded in full and slash floor(deposit*fraction) to the fee pool; per response fee minus floor(fee*tax) is earned and the tax reaches the fee pool; withdrawals and deposit moves are exact. A part gives the poor consumer a batch of two requests of which he can pay one: nothing may be charged for requests that are not issued.",
+         "Every sequence up to the depth bound over 3 providers (time promotion, volume promotion, plain price), 2 owners, a rich and a poor consumer, one-shot and repeated contexts: deposit escrow = sum of recorded deposits; request escrow = active request fees + unwithdrawn earned fees (provider and owner tallies agree); per end-block the consumer is charged exactly the fees recorded on the new requests, expired requests are refunded in full and slash floor(deposit*fraction) to the fee pool; per response fee minus floor(fee*tax) is earned and the tax reaches the fee pool; withdrawals and deposit moves are exact. A part gives the poor consumer a batch of two requests of which he can pay one: nothing may be charged for requests that are not issued. A part runs a module-owned context whose threshold is below its provider count (one provider stays silent).",
          "DESIGN.md §3 C07"),
  "C08": ("model_checking",
          "explicit-state exhaustive search over call/respond (by addressed provider, other provider, stranger, duplicate)/pause/start/kill/update (by consumer and stranger)/block sequences with a request-status and batch-schedule reference model; module callbacks registered on the real keeper and counted from emitted events",
@@ -60,7 +60,7 @@ CHECKS = {
          "DESIGN.md §3 C08"),
  "C14": ("model_checking",
          "explicit-state exhaustive search over issue/mint/edit/transfer/burn/transfer-class sequences by creator, owner and stranger on the real NFT keeper for all four restriction-flag combinations, reference ownership/metadata model compared through the queries after every message",
-         "Every sequence up to the depth bound (thorough tier reaches the fixpoint of the closed system): forbidden operations never succeed, one owner per token agreeing across all queries, restricted mint only by the creator, metadata of update-restricted classes never changes (also via transfer-with-changes and after a class handover), ids stable, supply = tokens = sum of balances. A scripted part gives one owner 130 tokens of a class (more than a page of the module's listings) and judges supply, per-owner balances and the paged listings after every step.",
+         "Every sequence up to the depth bound (thorough tier reaches the fixpoint of the closed system): forbidden operations never succeed, one owner per token agreeing across all queries, restricted mint only by the creator, metadata of update-restricted classes never changes (also via transfer-with-changes and after a class handover), ids stable, supply = tokens = sum of balances. A scripted part gives one owner 130 tokens of a class (more than a page of the module's listings) and judges supply, per-owner balances and the paged listings after every step. Transfers and edits also come with every field present and empty (a value, not the do-not-modify sentinel).",
          "DESIGN.md §3 C14"),
  "C16": ("model_checking",
          "exhaustive enumeration of boundary parameter sets (single-field deviations, pairs among fee/tax fields, full product for small modules) crossed with senders, genesis import and the module's operation menu, each executed on the real application on its own state branch",
@@ -76,11 +76,11 @@ CHECKS = {
          "DESIGN.md §3 C17"),
  "C10": ("model_checking",
          "exhaustive enumeration of LossLessSwap over all scale pairs 0..18 x an input lattice x 8 ratios against exact rational arithmetic, plus explicit-state exhaustive search over ERC20 conversions (both directions, by min unit and by symbol, swap-to-native hook, ERC20 switch off/on, restart from exported genesis) with a store-backed fault-injecting EVM (<= 1 fault per conversion) and fee-token swaps at three ratios on the real token keeper",
-         "Kernel: 0 <= burned <= offered, minted*10^s_in <= burned*ratio*10^s_out, equality and unconvertible dust at ratio 1. Search: every conversion moves exactly the amount on both ledgers and keeps native+ERC20 supply constant; any failure (insufficient balance, blocked receiver, injected EVM call error / VM failure / wrong credited amount / balanceOf error) leaves both ledgers unchanged; fee swaps never burn more than offered, never mint more than worth, supplies move by exactly burned/minted, module account empty. The fee-swap registry is built once per application instance; one part issues the second fee token on the path with one of two scales; one part deploys the contract with other decimals than the token's scale (the EVM seam answers decimals() accordingly); contract-initiated conversions carry a real EVM message, addressed to the bound contract or to another contract that calls it; a conversion event naming a receiver that is no account of the chain must fail as a whole.",
+         "Kernel: 0 <= burned <= offered, minted*10^s_in <= burned*ratio*10^s_out, equality and unconvertible dust at ratio 1. Search: every conversion moves exactly the amount on both ledgers and keeps native+ERC20 supply constant; any failure (insufficient balance, blocked receiver, injected EVM call error / VM failure / wrong credited amount / balanceOf error) leaves both ledgers unchanged; fee swaps never burn more than offered, never mint more than worth, supplies move by exactly burned/minted, module account empty. The fee-swap registry is built once per application instance; one part issues the second fee token on the path with one of two scales; one part deploys the contract with other decimals than the token's scale (the EVM seam answers decimals() accordingly); contract-initiated conversions carry a real EVM message, addressed to the bound contract or to another contract that calls it; a conversion event naming a receiver that is no account of the chain must fail as a whole; native coins parked on the token module account stay out of every conversion.",
          "DESIGN.md §3 C10"),
  "C12": ("model_checking",
          "explicit-state exhaustive search with 15 module drivers (record, coinswap, farm x3, htlc x2, token, nft, mt x2, service, random, oracle x2; governance parameter changes offered as operations) wrapped by a genesis round-trip oracle evaluated in every reached state at the block boundary: export -> module's own validation -> InitGenesis on a second application instance with emptied stores -> export again (byte fixpoint) -> first begin-block -> query comparison on the original object ids; second variant after the modules' prepare-for-zero-height step, with a census of durable objects before/after that step",
-         "In every reachable state of the drivers (bounded depth): the exported genesis (auth, bank and the module's) passes the module's ValidateGenesis, InitGenesis does not panic, the second export equals the first, and pools / stakes and pending rewards / open HTLCs and asset supplies / tokens and burn tallies / NFT classes, collections, owners, supply / MT classes, tokens, balances / service definitions, bindings, contexts, earned fees / feeds with their values / records by original id answer identically after re-import. Six bulk parts start from states with 130 objects of a module (more than a page of the paginated store walk) and ask for every object by its own id.",
+         "In every reachable state of the drivers (bounded depth): the exported genesis (auth, bank and the module's) passes the module's ValidateGenesis, InitGenesis does not panic, the second export equals the first, and pools / stakes and pending rewards / open HTLCs and asset supplies / tokens and burn tallies / NFT classes, collections, owners, supply / MT classes, tokens, balances / service definitions, bindings, contexts, earned fees / feeds with their values / records by original id answer identically after re-import. Six bulk parts start from states with 130 objects of a module (more than a page of the paginated store walk) and ask for every object by its own id. The service driver also sets withdraw addresses for owners with 20- and 32-byte account addresses.",
          "DESIGN.md §3 C12"),
  "C18": ("model_checking",
          "exhaustive enumeration of the PRNG over a lattice of block hashes, times, requesters and seeds in two evaluation orders, plus explicit-state exhaustive search over request (plain and oracle-seeded, intervals 0..3, two requesters, chains starting at height 1 and 253)/respond (valid, malformed, error)/block sequences on the real random+service keepers with a pending-set reference model compared through the queries in every state",
@@ -88,7 +88,7 @@ CHECKS = {
          "DESIGN.md §3 C18"),
  "C11": ("model_checking",
          "explicit-state exhaustive search with 20 module drivers in which every transition is re-executed from the same pre-state on fresh application instances (state transplanted key by key = restart / other node) under deviating host clocks (+-7 min, +400 days, clock = block time) and map iteration orders (runtime seeds 1..7), both controlled through a build-time overlay of GOROOT's time and runtime packages; whole-application state hash, transaction result and exported genesis compared byte for byte; plus cross-process replicas: the enumerated op paths of every driver (length <= 4, first 1500) executed in three operating-system processes, one of them walking siblings in reverse order, digests of all stores and exports compared path by path",
-         "Every transition of every driver up to the (reduced) depth bound: the warm search instance under the baseline environment and cold replicas under deviating environments must agree on the result class, on every KV store of the application and on a digest of what the transition returned (typed responses, events with their attributes in order, begin/end-block events); one deviation runs under another host time zone, one with node-local telemetry switched on; the digest includes the gas each transaction used; in every reached state the exported genesis of bank and the driver's modules must be identical under every map seed and clock offset. One search worker per process (seams are process-global), one process per driver. Across processes: the same history leads to the same stores and exported genesis whatever the process drew for itself (maphash seeds, start time) and whatever other paths it executed before.",
+         "Every transition of every driver up to the (reduced) depth bound: the warm search instance under the baseline environment and cold replicas under deviating environments must agree on the result class, on every KV store of the application and on a digest of what the transition returned (typed responses, events with their attributes in order, begin/end-block events); one deviation runs under another host time zone, one with node-local telemetry switched on; the digest includes the gas each transaction used; in the quick tier the restarted-node replica runs on every second transition; in every reached state the exported genesis of bank and the driver's modules must be identical under every map seed and clock offset. One search worker per process (seams are process-global), one process per driver. Across processes: the same history leads to the same stores and exported genesis whatever the process drew for itself (maphash seeds, start time) and whatever other paths it executed before.",
          "DESIGN.md §3 C11"),
 }
 NOT_YET = "check not built yet in this phase of the work (see DESIGN.md §6 change log); not claimed"
